@@ -1661,6 +1661,33 @@ static Type check_expression_impl(ASTNode *expr, Environment *env) {
                     if (func->params[i].type == TYPE_FUNCTION) {
                         /* Argument must be an identifier (function name or function-typed variable) */
                         if (arg->type != AST_IDENTIFIER) {
+                            /* Any other expression of function type is a function value as
+                             * well, e.g. a call of a function that returns a function:
+                             * (apply (get_operation 0) 7) */
+                            if (check_expression(arg, env) == TYPE_FUNCTION) {
+                                /* For a direct call the returned signature is declared: compare it
+                                 * (as `let f: fn(int) -> int = (get_operation 0)` does) */
+                                Function *callee = (arg->type == AST_CALL && arg->as.call.name)
+                                                   ? env_get_function(env, arg->as.call.name) : NULL;
+                                if (callee && callee->return_type == TYPE_FUNCTION &&
+                                    callee->return_fn_sig && func->params[i].fn_sig &&
+                                    !function_signatures_equal(func->params[i].fn_sig, callee->return_fn_sig)) {
+                                    char message[256];
+                                    snprintf(message, sizeof(message),
+                                            "Argument %d expects a function with a different signature.",
+                                            i + 1);
+                                    emit_context_error(
+                                        "TYPE MISMATCH",
+                                        arg->line,
+                                        arg->column,
+                                        1,
+                                        message,
+                                        "Match the parameter's expected function signature."
+                                    );
+                                    return TYPE_UNKNOWN;
+                                }
+                                continue;  /* Skip to next argument */
+                            }
                             emit_context_error(
                                 "TYPE MISMATCH",
                                 arg->line,
